@@ -104,6 +104,7 @@ func evExtToQK(t *Tracer, w Win, ids []BID, hz, vz int64, sp bool) {
 			real[i] = w.realBID(b).String()
 		}
 	}
+	real = spare(real)
 	snap := append([]string(nil), real...)
 	const hgt = 0.0 // maxHeight == minHeight selects the index form
 	var o string
@@ -119,7 +120,7 @@ func evExtToQK(t *Tracer, w Win, ids []BID, hz, vz int64, sp bool) {
 			return transform.ConvertExtendedSpatialIDsToQuadkeysAndVerticalIDs(real, hz, w.V0+vz, hgt, hgt)
 		})
 	}
-	e := w.ev(op, map[string]any{"ids": bidsArr(ids), "hz": hz, "vz": vz, "kept": sameStrings(real, snap)})
+	e := w.ev(op, map[string]any{"ids": bidsArr(ids), "hz": hz, "vz": vz, "kept": intact(real, snap)})
 	e.O, e.Real = o, map[string]any{"ids": snap, "hz": hz, "vz": w.V0 + vz}
 	e.R = []any{}
 	if o == "panic" {
